@@ -160,10 +160,17 @@ fn c08_size_accounting() {
         RollState::AgeOrSize { current_size: c, max_size: m, .. } => assert!(m == max_size && c == cur + add),
         _ => unreachable!(),
     }
-    vs::clock_push(i);
+    // the start time of the new file is taken over whatever the sizes are (over the limit or not):
+    // the birth-time model answers with the next clock value, a later second
+    let i2 = vs::Instant { y: 2024, mo: 3, d: 1, h: 0, mi: 0, s: 7, off: 0 };
+    vs::clock_push(i2);
     rs2.reset_size_and_date(Path::new("x"));
     match rs2 {
-        RollState::AgeOrSize { current_size: c, max_size: m, .. } => assert!(m == max_size && c == 0),
+        RollState::AgeOrSize { current_size: c, max_size: m, created_at, .. } => {
+            use chrono::{Datelike, Timelike};
+            assert!(m == max_size && c == 0);
+            assert!(created_at.second() == 7 && created_at.day() == 1 && created_at.month() == 3);
+        }
         _ => unreachable!(),
     }
     kani::cover!(add == 0, "empty record");
@@ -1159,3 +1166,402 @@ shutdown_instance!(c04_shutdown_flushes_with_rotation, true);
 // @verif prop=C04 tier=quick timeout=600 bounds=Active-state-without-rotation,one-record<=8-bytes
 // ... and also when no rotation is configured (stand-alone / additional file writers are only ever shut down, never flushed first).
 shutdown_instance!(c04_shutdown_flushes_without_rotation, false);
+
+// ================================================================================================
+// C19: a failing *first* initialisation (open / rename / metadata / initial cleanup fails when the
+// first record arrives) must leave the state such that the next write retries the *same*
+// initialisation - with the configured rotation - and succeeds once the fault has cleared.
+// `initialize_with_rotation` is a contract stub (its leaves are decided by c06_init_* / c19_*):
+// fails on its first call, succeeds afterwards; the no-rotation arm (`open_log_file(.., None)`)
+// is cut: reaching it with rotation configured is a failure.
+fn cut_open_log_file(_c: &FileLogWriterConfig, _o_infix: Option<&str>) -> Result<(Box<dyn Write + Send>, PathBuf), std::io::Error> {
+    unreachable!("VERIF-CUT open_log_file without infix although rotation is configured")
+}
+fn stub_init_with_rotation(_s: &State, rc: &RotationConfig, _bg: bool) -> Result<Inner, std::io::Error> {
+    let n = vs::cell_inc(2);
+    // the configuration handed over is the one the writer was built with
+    match rc.criterion {
+        Criterion::Size(m) => vs::cell_set(3, m),
+        _ => vs::cell_set(3, u64::MAX),
+    }
+    if n <= vs::cell_get(4) {
+        return Err(std::io::Error::from_raw_os_error(21)); // EISDIR
+    }
+    Ok(Inner::Active(
+        Some(RotationState {
+            naming_state: NamingState::NumbersRCurrent(0),
+            roll_state: RollState::Size { max_size: 10, current_size: 0 },
+            cleanup: Cleanup::Never,
+            o_cleanup_thread_handle: None,
+        }),
+        Box::new(RecW { id: 1 }),
+        PathBuf::from("c"),
+    ))
+}
+fn init_retry_case(with_retry: bool) {
+    vs::link_all();
+    let limit: u64 = kani::any();
+    vs::cell_set(2, 0);
+    vs::cell_set(4, 1); // the first attempt fails
+    let cfg = mk_config(FileSpec::default().directory("d").basename("b").suffix("l").suppress_timestamp(), true, WriteMode::Direct);
+    let rc = RotationConfig { criterion: Criterion::Size(limit), naming: Naming::Numbers, cleanup: Cleanup::Never };
+    let mut state = State::new(cfg, Some(rc), false);
+    let r = state.initialize();
+    assert!(r.is_err());
+    std::mem::forget(r);
+    // still Initial, and still with the rotation configuration it was built with
+    assert!(state.inner.uses_rotation());
+    match &state.inner {
+        Inner::Initial(Some(rc), false) => match rc.criterion {
+            Criterion::Size(m) => assert!(m == limit),
+            _ => assert!(false, "criterion changed"),
+        },
+        _ => assert!(false, "state after a failed initialisation is not Initial(Some(config), ..)"),
+    }
+    assert!(vs::cell_get(2) == 1 && vs::cell_get(3) == limit);
+    if with_retry {
+        let r = state.initialize();
+        assert!(r.is_ok());
+        std::mem::forget(r);
+        assert!(matches!(state.inner, Inner::Active(Some(_), _, _)));
+        assert!(vs::cell_get(2) == 2 && vs::cell_get(3) == limit);
+    }
+    kani::cover!(limit == 0, "size limit 0");
+    std::mem::forget(state);
+}
+// @verif prop=C19 tier=quick timeout=600 bounds=first-initialisation-fails,rotation-configured(size-limit-symbolic)
+// State::initialize: when the initialisation fails the error is returned and the state stays Initial *with its rotation configuration* (same criterion), so that the next write retries the initialisation with rotation - logging and rotation can resume without a restart once the fault has cleared.
+#[kani::proof]
+#[kani::unwind(6)]
+#[kani::stub(verif_support::reexp::catch_unwind, verif_support::stub_cu)]
+#[kani::stub(chrono::Local::now, stub_now)]
+#[kani::stub(State::initialize_with_rotation, stub_init_with_rotation)]
+#[kani::stub(open_log_file, cut_open_log_file)]
+fn c19_initialize_failure_keeps_rotation() {
+    init_retry_case(false);
+}
+// @verif prop=C19 tier=quick timeout=600 bounds=first-initialisation-fails-once-then-succeeds
+// ... and the retry runs the initialisation with rotation again (same configuration) and ends Active with rotation: logging and rotation resume without a restart.
+#[kani::proof]
+#[kani::unwind(6)]
+#[kani::stub(verif_support::reexp::catch_unwind, verif_support::stub_cu)]
+#[kani::stub(chrono::Local::now, stub_now)]
+#[kani::stub(State::initialize_with_rotation, stub_init_with_rotation)]
+#[kani::stub(open_log_file, cut_open_log_file)]
+fn c19_initialize_retry_keeps_rotation() {
+    init_retry_case(true);
+}
+
+// ================================================================================================
+// open_log_file: which path is opened, with which OpenOptions, and what the configured symlink
+// points to afterwards. Environment:
+//   OpenOptions::{write,create,append,truncate} record their argument (cells 20..23, value+1),
+//   OpenOptions::open records the path (cell 24: 1 = "d/b_r1.l") and hands out a File over model fd 5,
+//   symlink table of one entry (the configured link "lnk"): cell 10 = exists, cell 11 = what it
+//   points to (0 = the file about to be opened, 1 = another existing file, 2 = a deleted file
+//   (dangling), 3 = something else), cell 12 = the log file exists already;
+//   symlink_metadata / remove_file / unix::fs::symlink / canonicalize answer from that table
+//   (symlink() fails with EEXIST on an existing link, as the real one does).
+fn oo_write(o: &mut OpenOptions, v: bool) -> &mut OpenOptions {
+    vs::cell_set(20, v as u64 + 1);
+    o
+}
+fn oo_create(o: &mut OpenOptions, v: bool) -> &mut OpenOptions {
+    vs::cell_set(21, v as u64 + 1);
+    o
+}
+fn oo_append(o: &mut OpenOptions, v: bool) -> &mut OpenOptions {
+    vs::cell_set(22, v as u64 + 1);
+    o
+}
+fn oo_truncate(o: &mut OpenOptions, v: bool) -> &mut OpenOptions {
+    vs::cell_set(23, v as u64 + 1);
+    o
+}
+fn path_is(p: &Path, want: &[u8]) -> bool {
+    use std::os::unix::ffi::OsStrExt;
+    let b = p.as_os_str().as_bytes();
+    if b.len() != want.len() {
+        return false;
+    }
+    let mut i = 0;
+    while i < want.len() {
+        if b[i] != want[i] {
+            return false;
+        }
+        i += 1;
+    }
+    true
+}
+fn oo_open_rec<P: AsRef<Path>>(_o: &OpenOptions, path: P) -> std::io::Result<File> {
+    vs::cell_set(24, if path_is(path.as_ref(), b"d/b_r1.l") { 1 } else { 2 });
+    vs::cell_set(12, 1);
+    vs::ev_push(0x700);
+    Ok(vs::file_from_fd(5))
+}
+fn sl_symlink_metadata<P: AsRef<Path>>(path: P) -> std::io::Result<std::fs::Metadata> {
+    assert!(path_is(path.as_ref(), b"lnk"));
+    if vs::cell_get(10) == 1 {
+        Ok(vs::zeroed_metadata())
+    } else {
+        Err(std::io::Error::from_raw_os_error(2))
+    }
+}
+fn sl_remove_file<P: AsRef<Path>>(path: P) -> std::io::Result<()> {
+    assert!(path_is(path.as_ref(), b"lnk"));
+    if vs::cell_get(10) == 1 {
+        vs::cell_set(10, 0);
+        Ok(())
+    } else {
+        Err(std::io::Error::from_raw_os_error(2))
+    }
+}
+fn sl_symlink<P: AsRef<Path>, Q: AsRef<Path>>(original: P, link: Q) -> std::io::Result<()> {
+    assert!(path_is(link.as_ref(), b"lnk"));
+    if vs::cell_get(10) == 1 {
+        return Err(std::io::Error::from_raw_os_error(17)); // EEXIST
+    }
+    vs::cell_set(10, 1);
+    vs::cell_set(11, if path_is(original.as_ref(), b"d/b_r1.l") { 0 } else { 3 });
+    Ok(())
+}
+// canonicalize resolves symlinks and fails for anything that does not exist (in the end)
+fn sl_canonicalize(p: &Path) -> std::io::Result<PathBuf> {
+    let file_exists = vs::cell_get(12) == 1;
+    if path_is(p, b"lnk") {
+        if vs::cell_get(10) == 1 {
+            match vs::cell_get(11) {
+                0 if file_exists => Ok(PathBuf::from("/w/d/b_r1.l")),
+                1 => Ok(PathBuf::from("/w/d/other.l")),
+                _ => Err(std::io::Error::from_raw_os_error(2)),
+            }
+        } else {
+            Err(std::io::Error::from_raw_os_error(2))
+        }
+    } else if file_exists {
+        Ok(PathBuf::from("/w/d/b_r1.l"))
+    } else {
+        Err(std::io::Error::from_raw_os_error(2))
+    }
+}
+macro_rules! open_harness {
+    ($u:literal, fn $name:ident() $body:block) => {
+        #[kani::proof]
+        #[kani::unwind($u)]
+        #[kani::stub(verif_support::reexp::catch_unwind, verif_support::stub_cu)]
+        #[kani::stub(chrono::Local::now, stub_now)]
+        #[kani::stub(crate::util::eprint_err, stub_eprint_err_ev)]
+        #[kani::stub(std::fs::OpenOptions::write, oo_write)]
+        #[kani::stub(std::fs::OpenOptions::create, oo_create)]
+        #[kani::stub(std::fs::OpenOptions::append, oo_append)]
+        #[kani::stub(std::fs::OpenOptions::truncate, oo_truncate)]
+        #[kani::stub(std::fs::OpenOptions::open, oo_open_rec)]
+        #[kani::stub(std::fs::symlink_metadata, sl_symlink_metadata)]
+        #[kani::stub(std::fs::remove_file, sl_remove_file)]
+        #[kani::stub(std::os::unix::fs::symlink, sl_symlink)]
+        #[kani::stub(std::path::Path::canonicalize, sl_canonicalize)]
+        fn $name() $body
+    };
+}
+// @verif prop=C06,C16,C01 tier=quick timeout=600 bounds=append-symbolic,infix"r1",direct-mode,no-symlink
+// open_log_file opens exactly directory/[basename]_[infix].[suffix], for writing, creating it if missing, and reports that path; with append configured the file is opened in append mode and never truncated (earlier content stays; truncation without append is the documented exception).
+open_harness! { 12,
+fn c06_open_log_file_flags() {
+    vs::link_all();
+    let append: bool = kani::any();
+    let cfg = mk_config(FileSpec::default().directory("d").basename("b").suffix("l").suppress_timestamp(), append, WriteMode::Direct);
+    let r = open_log_file(&cfg, Some("r1"));
+    match &r {
+        Ok((_w, p)) => assert!(path_is(p, b"d/b_r1.l")),
+        Err(_) => assert!(false, "open failed although the environment succeeds"),
+    }
+    assert!(vs::cell_get(24) == 1);
+    // opened for writing (write or append access), created if missing
+    assert!(vs::cell_get(20) == 2 || vs::cell_get(22) == 2);
+    assert!(vs::cell_get(21) == 2);
+    // with append: append mode, and never truncated (earlier content stays). Without append the
+    // documented truncation is *permitted*, not required - nothing is asserted about it.
+    if append {
+        assert!(vs::cell_get(22) == 2);
+        assert!(vs::cell_get(23) != 2);
+    }
+    kani::cover!(append, "append");
+    kani::cover!(!append, "no append");
+    std::mem::forget(r);
+    std::mem::forget(cfg);
+}
+}
+fn symlink_case(l_exists: bool, l_target: u64) {
+    vs::link_all();
+    let append: bool = kani::any();
+    let f_exists: bool = kani::any();
+    vs::cell_set(10, l_exists as u64);
+    vs::cell_set(11, l_target);
+    vs::cell_set(12, f_exists as u64);
+    let mut cfg = mk_config(FileSpec::default().directory("d").basename("b").suffix("l").suppress_timestamp(), append, WriteMode::Direct);
+    cfg.o_create_symlink = Some(PathBuf::from("lnk"));
+    let r = open_log_file(&cfg, Some("r1"));
+    assert!(r.is_ok());
+    assert!(vs::cell_get(24) == 1);
+    // the link resolves to the file currently written to
+    assert!(vs::cell_get(10) == 1 && vs::cell_get(11) == 0);
+    // no error report (event 5) in a fault-free environment
+    let mut i = 0;
+    while i < vs::ev_len() && i < vs::NLOG {
+        assert!(vs::ev_get(i) != 5);
+        i += 1;
+    }
+    kani::cover!(!f_exists, "the log file does not exist yet");
+    kani::cover!(f_exists && append, "the log file exists and is appended to");
+    std::mem::forget(r);
+    std::mem::forget(cfg);
+}
+// With a symlink configured, after open_log_file has returned the link exists and points to the
+// file that was opened - whatever the link pointed to before - and nothing is reported on the
+// error channel. The previous state of the link is concrete per instance (symbolic: no result in
+// 15 min), whether the log file existed already and the append setting are symbolic.
+// @verif prop=C16 tier=probe timeout=600 bounds=symlink-configured,no-link-before,log-file-exists-or-not+append-symbolic
+// BUDGET GATE: no result in 400 s (the ENOENT result of symlink_metadata is dropped by `.is_ok()`: io::Error drop glue). No link yet: it is created and points to the opened file.
+open_harness! { 12,
+fn c16_symlink_absent() {
+    symlink_case(false, 0);
+}
+}
+// @verif prop=C16 tier=quick timeout=600 bounds=symlink-configured,link->another-existing-file(previous-log-file)
+// The link points to another (earlier) log file: afterwards it points to the opened file.
+open_harness! { 12,
+fn c16_symlink_other_file() {
+    symlink_case(true, 1);
+}
+}
+// @verif prop=C16 tier=quick timeout=600 bounds=symlink-configured,dangling-link(target-deleted)
+// The link dangles (its old target was deleted or moved away): afterwards it points to the opened file.
+open_harness! { 12,
+fn c16_symlink_dangling() {
+    symlink_case(true, 2);
+}
+}
+// @verif prop=C16 tier=thorough timeout=600 bounds=symlink-configured,link->the-same-file
+// The link already points to the file that is (re-)opened: it still does afterwards.
+open_harness! { 12,
+fn c16_symlink_same_file() {
+    symlink_case(true, 0);
+}
+}
+fn writer_kind_case(buffered: bool) {
+    vs::link_all();
+    let cfg = mk_config(
+        FileSpec::default().directory("d").basename("b").suffix("l").suppress_timestamp(),
+        true,
+        if buffered { WriteMode::BufferDontFlushWith(8) } else { WriteMode::Direct },
+    );
+    let r = open_log_file(&cfg, Some("r1"));
+    let len: usize = kani::any();
+    kani::assume(len >= 1 && len <= 4);
+    let buf = [b'x'; 4];
+    match r {
+        Ok((mut w, p)) => {
+            let n0 = vs::ev_len();
+            // one write() call; see c18_reopen_only for why not write_all / flush on a real File
+            let wr = w.write(&buf[..len]);
+            match &wr {
+                Ok(n) => assert!(*n == len),
+                Err(_) => assert!(false, "write failed"),
+            }
+            std::mem::forget(wr);
+            if buffered {
+                // held in the user-space buffer (capacity 8 > len): nothing reaches the descriptor yet
+                assert!(vs::ev_len() == n0);
+            } else {
+                assert!(vs::ev_len() == n0 + 1);
+                assert!(vs::ev_get(n0) == (0x600 | 5 << 4 | len as u32));
+            }
+            std::mem::forget(w);
+            std::mem::forget(p);
+        }
+        Err(e) => {
+            std::mem::forget(e);
+            assert!(false, "open failed");
+        }
+    }
+    kani::cover!(len == 4, "4 bytes");
+    std::mem::forget(cfg);
+}
+// @verif prop=C11,C15,C04 tier=quick timeout=600 bounds=WriteMode::Direct,one-chunk-of-symbolic-length<=4
+// The writer open_log_file hands out in direct mode: the bytes reach the file descriptor when write returns (no user-space buffer: a kill afterwards cannot lose them).
+open_harness! { 12,
+fn c11_open_log_file_direct_writer() {
+    writer_kind_case(false);
+}
+}
+// @verif prop=C15,C04 tier=thorough timeout=900 bounds=WriteMode::BufferDontFlushWith(8),one-chunk-of-symbolic-length<=4
+// ... in the buffered modes they are held back in a buffer of the configured capacity (what flush() then does with them is decided by c04_buffered_flush).
+open_harness! { 12,
+fn c11_open_log_file_buffered_writer() {
+    writer_kind_case(true);
+}
+}
+// ------------------------------------------------------------------------------------------------
+// C18, reduced: reopen_outputfile alone (no write_buffer around it; the hand-over of records to the
+// mounted writer is decided by c01_write_buffer_glue / c04_*).
+fn cut_remove_file_reopen<P: AsRef<Path>>(_p: P) -> std::io::Result<()> {
+    unreachable!("VERIF-CUT remove_file in reopen_outputfile (fallback path of a failing re-open)")
+}
+fn oo_open_reopen<P: AsRef<Path>>(_o: &OpenOptions, path: P) -> std::io::Result<File> {
+    vs::ev_push(0x700 | if path_is(path.as_ref(), b"c") { 1 } else { 0 });
+    Ok(vs::file_from_fd(5))
+}
+// @verif prop=C18,C11 tier=quick timeout=900 bounds=Active-state,mounted-writer=recording-sink,re-open-succeeds,one-chunk-of-symbolic-length<=4-afterwards
+// reopen_outputfile: the path that is re-opened is the path of the current file (create + append: nothing is truncated), the writer mounted before is released (a BufWriter flushes what it holds into the old, externally renamed file when dropped), and bytes written afterwards go - unbuffered - to the newly opened file, not to the old writer.
+#[kani::proof]
+#[kani::unwind(10)]
+#[kani::stub(verif_support::reexp::catch_unwind, verif_support::stub_cu)]
+#[kani::stub(chrono::Local::now, stub_now)]
+#[kani::stub(crate::util::eprint_err, stub_eprint_err_ev)]
+#[kani::stub(std::fs::OpenOptions::create, oo_create)]
+#[kani::stub(std::fs::OpenOptions::append, oo_append)]
+#[kani::stub(std::fs::OpenOptions::truncate, oo_truncate)]
+#[kani::stub(std::fs::OpenOptions::write, oo_write)]
+#[kani::stub(std::fs::OpenOptions::open, oo_open_reopen)]
+#[kani::stub(std::fs::remove_file, cut_remove_file_reopen)]
+#[kani::stub(std::path::PathBuf::set_extension, verif_support::set_extension_model)]
+fn c18_reopen_only() {
+    vs::link_all();
+    vs::cell_set(0, 0);
+    let mut state = numbers_state(0, u64::MAX, 0);
+    let r = state.reopen_outputfile();
+    let ok = r.is_ok();
+    std::mem::forget(r);
+    assert!(ok);
+    // create(true) + append(true): earlier content of a file at that path is kept
+    assert!(vs::cell_get(21) == 2); // created if missing (it was renamed / removed externally)
+    assert!(vs::cell_get(22) == 2 || vs::cell_get(20) == 2); // opened for writing
+    assert!(vs::cell_get(23) != 2); // never truncated: a file still at that path keeps its records
+    // exactly two effects, in either order: the original path is re-opened (0x701) and the
+    // writer mounted before (id 0) is released (0x300)
+    assert!(vs::ev_len() == 2);
+    let (e0, e1) = (vs::ev_get(0), vs::ev_get(1));
+    assert!((e0 == 0x701 && e1 == 0x300) || (e0 == 0x300 && e1 == 0x701));
+    let len: usize = kani::any();
+    kani::assume(len >= 1 && len <= 4);
+    let buf = [b'x'; 4];
+    if let Inner::Active(_, ref mut w, ref p) = state.inner {
+        assert!(path_is(p, b"c"));
+        // one write() call (not write_all: its retry loop drops io::Error values, whose recursive
+        // drop glue does not terminate in CBMC); the result is inspected and forgotten
+        let wr = w.write(&buf[..len]);
+        match &wr {
+            Ok(n) => assert!(*n == len),
+            Err(_) => assert!(false, "write to the re-opened file failed"),
+        }
+        std::mem::forget(wr);
+    } else {
+        assert!(false, "state no longer active");
+    }
+    assert!(vs::ev_len() == 3);
+    // the new file receives the bytes, at once: re-opening does not put a user-space buffer in front
+    // of a direct-mode file (a kill after the write returned cannot lose them)
+    assert!(vs::ev_get(2) == (0x600 | 5 << 4 | len as u32));
+    kani::cover!(len == 4, "4 bytes");
+    std::mem::forget(state);
+}
